@@ -233,7 +233,7 @@ Record inv (m : hmap) (L : list nat) : Prop := mkInv {
   inv_dll : dll m L;
   inv_ids : Permutation (lru_ids (ents (h_bkts m))) L;
   inv_nkey : forall e n, In e (ents (h_bkts m)) -> e_lru e = Some n -> nkey (h_heap m) n = Some (e_key e);
-  inv_on : forall e, In e (ents (h_bkts m)) -> (e_lru e = None <-> h_max m = None);
+  inv_on : h_max m = None -> forall e, In e (ents (h_bkts m)) -> e_lru e = None;
   inv_fresh : forall j, In j L -> (j < h_fresh m)%nat }.
 
 (* keys of the recency list, oldest first *)
@@ -331,7 +331,7 @@ Proof.
   - apply (dll_ext m); try reflexivity. exact (inv_dll m L Hinv).
   - eapply Permutation_trans; [apply lru_ids_perm; exact HP | exact (inv_ids m L Hinv)].
   - intros e n He Hn. apply (inv_nkey m L Hinv e n); [|assumption]. eapply Permutation_in; eassumption.
-  - intros e He. apply (inv_on m L Hinv e). eapply Permutation_in; eassumption.
+  - intros Hmx e He. apply (inv_on m L Hinv Hmx e). eapply Permutation_in; eassumption.
   - exact (inv_fresh m L Hinv).
 Qed.
 
@@ -464,7 +464,7 @@ Proof.
           unfold lru_ids. simpl. rewrite app_nil_r. apply Permutation_refl. }
         apply Permutation_app_inv_l in HPa. eapply Permutation_in; eassumption. }
       rewrite (Hk1 n HnL1). apply (inv_nkey m L Hinv e' n); assumption.
-    - intros e' He'. rewrite Fmx. apply (inv_on m L Hinv e').
+    - intros Hmx e' He'. rewrite Fmx in Hmx. apply (inv_on m L Hinv Hmx e').
       eapply Permutation_in; [apply Permutation_sym; exact HP3|]. right. exact He'.
     - intros j Hj. rewrite Ffr. apply (inv_fresh m L Hinv).
       eapply Permutation_in; [apply Permutation_sym; exact HP1|]. apply in_or_app. right. exact Hj. }
@@ -524,7 +524,7 @@ Record inv0 (m : hmap) (L : list nat) : Prop := mkInv0 {
   i0_fresh : forall j, In j L -> (j < h_fresh m)%nat }.
 
 Definition on_ok (m : hmap) : Prop :=
-  forall e, In e (ents (h_bkts m)) -> (e_lru e = None <-> h_max m = None).
+  h_max m = None -> forall e, In e (ents (h_bkts m)) -> e_lru e = None.
 
 Lemma inv_split : forall m L, inv m L <-> inv0 m L /\ on_ok m.
 Proof.
@@ -547,7 +547,7 @@ Proof.
 Qed.
 
 Lemma on_ok_ext : forall m m', h_bkts m' = h_bkts m -> h_max m' = h_max m -> on_ok m -> on_ok m'.
-Proof. intros m m' Eb Emx H e He. rewrite Eb in He. rewrite Emx. apply H. assumption. Qed.
+Proof. intros m m' Eb Emx H Hx e He. rewrite Eb in He. rewrite Emx in Hx. apply (H Hx). assumption. Qed.
 
 Lemma inv_ext : forall m m' L, core_eq m m' -> inv m L -> inv m' L.
 Proof.
@@ -586,10 +586,10 @@ Proof.
         eapply Permutation_in; [apply Permutation_sym; exact HP|]. left. reflexivity.
       * apply H6; [|exact Hn]. eapply Permutation_in; [apply Permutation_sym; exact HP|]. right. exact He'.
     + exact H7.
-  - intros Hon e' He'. simpl.
+  - intros Hon Hmx e' He'. simpl in Hmx, He'.
     eapply Permutation_in in He'; [|exact HP']. destruct He' as [He'|He'].
-    + subst e'. rewrite Hl. apply Hon. eapply Permutation_in; [apply Permutation_sym; exact HP|]. left. reflexivity.
-    + apply Hon. eapply Permutation_in; [apply Permutation_sym; exact HP|]. right. exact He'.
+    + subst e'. rewrite Hl. apply (Hon Hmx). eapply Permutation_in; [apply Permutation_sym; exact HP|]. left. reflexivity.
+    + apply (Hon Hmx). eapply Permutation_in; [apply Permutation_sym; exact HP|]. right. exact He'.
 Qed.
 
 
@@ -599,16 +599,14 @@ Lemma frame_core : forall m m', frame m m' -> h_count m' = h_count m /\ h_mask m
 Proof. intros m m' H. exact H. Qed.
 
 (* _lru_entry_update on an entry that already owns a node: the node moves to the tail *)
-Lemma inv_touch : forall m L bi ei e, inv m L -> h_max m <> None ->
+Lemma inv_touch_node : forall m L bi ei e n, inv m L -> e_lru e = Some n ->
   nth_error (b_ents (bkt (h_bkts m) bi)) ei = Some e -> (bi < length (h_bkts m))%nat ->
   let m' := lru_update K m bi ei in
   exists L', inv m' L' /\ frame m m' /\
     (forall ks, recrel m L ks -> NoDup ks -> recrel m' L' (rec_remove K keq (e_key e) ks ++ [e_key e])).
 Proof.
-  intros m L bi ei e Hinv Hon Hnth Hbi m'.
+  intros m L bi ei e n Hinv Hl Hnth Hbi m'.
   assert (He : In e (ents (h_bkts m))) by (eapply ents_in; eassumption).
-  destruct (e_lru e) as [n|] eqn:Hl.
-  2:{ exfalso. apply Hon. apply (inv_on m L Hinv e He). exact Hl. }
   assert (HnL : In n L).
   { eapply Permutation_in; [exact (inv_ids m L Hinv)|]. apply lru_ids_in. exists e. split; assumption. }
   apply in_split in HnL. destruct HnL as [l1 [l2 HL]]. subst L.
@@ -652,14 +650,14 @@ Qed.
 (* _lru_entry_update on an entry without node: a fresh node is appended *)
 Lemma inv_fresh_node : forall m L bi ei e rest, inv0 m L -> h_max m <> None -> (bi < length (h_bkts m))%nat ->
   nth_error (b_ents (bkt (h_bkts m) bi)) ei = Some e -> e_lru e = None ->
-  Permutation (ents (h_bkts m)) (e :: rest) -> (forall e', In e' rest -> e_lru e' <> None) ->
+  Permutation (ents (h_bkts m)) (e :: rest) ->
   let m' := lru_update K m bi ei in
   let e1 := mkE K (e_key e) (e_val e) (Some (h_fresh m)) (e_hash e) in
   inv m' (L ++ [h_fresh m]) /\ Permutation (ents (h_bkts m')) (e1 :: rest) /\
   h_log m' = h_log m /\ h_max m' = h_max m /\ h_ikp m' = h_ikp m /\
   (forall ks, recrel m L ks -> recrel m' (L ++ [h_fresh m]) (ks ++ [e_key e])).
 Proof.
-  intros m L bi ei e rest [H1 H2 H3 H4 H5 H6 H7] Hon Hbi Hnth Hl HPr Hrest m' e1.
+  intros m L bi ei e rest [H1 H2 H3 H4 H5 H6 H7] Hon Hbi Hnth Hl HPr m' e1.
   destruct (lru_fresh_ok m bi ei e L Hnth Hl H4 H7) as [Hd [Hfr [Hbk [Fc [Fm [Fmx [Fik [Ffa [Flg [Hkn Hk]]]]]]]]]].
   fold m' in Hd, Hfr, Hbk, Fc, Fm, Fmx, Fik, Ffa, Flg, Hkn, Hk.
   set (f := fun x : entry => mkE K (e_key x) (e_val x) (Some (h_fresh m)) (e_hash x)) in *.
@@ -688,9 +686,7 @@ Proof.
         { eapply Permutation_in; [exact Hidr|]. apply lru_ids_in. exists e'. split; assumption. }
         rewrite Hk by (intro Heq; subst; contradiction).
         apply H6; [|exact Hln']. eapply Permutation_in; [apply Permutation_sym; exact HPr|]. right. exact He'.
-    + intros e' He'. eapply Permutation_in in He'; [|exact HPe]. split; intro Hx.
-      * exfalso. destruct He' as [He'|He']; [subst e'; simpl in Hx; discriminate | exact (Hrest e' He' Hx)].
-      * contradiction.
+    + intros Hx. contradiction.
     + intros j Hj. rewrite Hfr. apply in_app_or in Hj. destruct Hj as [Hj|[Hj|[]]]; [apply H7 in Hj; lia | subst; lia].
   - intros ks Hrr. unfold recrel. apply Forall2_app.
     + apply (recrel_transfer (h_heap m)); [|exact Hrr].
@@ -698,6 +694,50 @@ Proof.
     + constructor; [exact Hkn | constructor].
 Qed.
 
+
+(* the key of an entry without node is not in the recency list *)
+Lemma nonode_not_in_rec : forall m L e ks, inv m L -> In e (ents (h_bkts m)) -> e_lru e = None ->
+  recrel m L ks -> ~ In (e_key e) ks.
+Proof.
+  intros m L e ks Hinv He Hl Hrr Hi.
+  destruct (recrel_in_ex _ _ _ _ Hrr Hi) as [n [HnL Hnk]].
+  pose proof (Permutation_sym (inv_ids m L Hinv)) as HP.
+  eapply Permutation_in in HnL; [|exact HP].
+  apply lru_ids_in in HnL. destruct HnL as [e' [He' Hl']].
+  pose proof (inv_nkey m L Hinv e' n He' Hl') as Hk2. rewrite Hnk in Hk2. inversion Hk2 as [Hkk].
+  assert (e = e') by (eapply (ents_key_unique (h_mask m) (h_bkts m)); [exact (inv_bwf m L Hinv)| | |]; assumption).
+  subst e'. congruence.
+Qed.
+
+(* _lru_entry_update with LRU on, whether or not the entry owns a node (an entry created before iwhmap_lru_init
+   has none): afterwards its key is the newest of the recency list *)
+Lemma inv_touch : forall m L bi ei e, inv m L -> h_max m <> None ->
+  nth_error (b_ents (bkt (h_bkts m) bi)) ei = Some e -> (bi < length (h_bkts m))%nat ->
+  let m' := lru_update K m bi ei in
+  exists L', inv m' L' /\ h_log m' = h_log m /\ h_max m' = h_max m /\ h_ikp m' = h_ikp m /\
+    h_count m' = h_count m /\ Permutation (al_of (h_bkts m')) (al_of (h_bkts m)) /\
+    (forall ks, recrel m L ks -> NoDup ks -> recrel m' L' (rec_remove K keq (e_key e) ks ++ [e_key e])).
+Proof.
+  intros m L bi ei e Hinv Hon Hnth Hbi m'.
+  assert (He : In e (ents (h_bkts m))) by (eapply ents_in; eassumption).
+  destruct (e_lru e) as [n|] eqn:Hl.
+  - destruct (inv_touch_node m L bi ei e n Hinv Hl Hnth Hbi) as [L' [Hi' [Hf' Hr']]].
+    destruct (frame_core _ _ Hf') as [Fc [Fm [Fb [Ffr [Fmx [Fik [Ffa Flg]]]]]]].
+    exists L'. splits; try assumption. subst m'. rewrite Fb. apply Permutation_refl.
+  - destruct (in_split _ _ He) as [l1 [l2 Hsp]].
+    assert (HPr : Permutation (ents (h_bkts m)) (e :: l1 ++ l2)).
+    { rewrite Hsp. apply Permutation_sym. apply Permutation_middle. }
+    pose proof (proj1 (proj1 (inv_split m L) Hinv)) as Hinv0.
+    destruct (inv_fresh_node m L bi ei e (l1 ++ l2) Hinv0 Hon Hbi Hnth Hl HPr) as [Hi1 [HP1 [Hl1 [Hmx1 [Hik1 Hr1]]]]].
+    subst m'. exists (L ++ [h_fresh m]). splits; try assumption.
+    + rewrite (inv_count _ _ Hi1), (inv_count _ _ Hinv). f_equal.
+      apply Permutation_length in HP1. apply Permutation_length in HPr. simpl in *. lia.
+    + unfold al_of. eapply Permutation_trans; [apply al_of_perm; exact HP1|].
+      eapply Permutation_trans; [|apply al_of_perm; apply Permutation_sym; exact HPr]. simpl. apply Permutation_refl.
+    + intros ks Hrr Hnd. rewrite (rec_remove_notin K keq keq_spec).
+      * apply Hr1. exact Hrr.
+      * exact (nonode_not_in_rec m L e ks Hinv He Hl Hrr).
+Qed.
 
 Lemma lru_on_max : forall m : hmap, lru_on K m = true <-> h_max m <> None.
 Proof. intro m. unfold lru_on. destruct (h_max m); split; intro H; congruence. Qed.
@@ -755,10 +795,7 @@ Proof.
   destruct (lru_on K mb) eqn:Hon.
   - (* LRU on: fresh node *)
     assert (Hmaxne : h_max mb <> None) by (apply lru_on_max; exact Hon).
-    assert (Hrl : forall e', In e' rest -> e_lru e' <> None).
-    { intros e' He' Hx. eapply Permutation_in in He'; [|exact Hrest].
-      apply (inv_on m L Hinv e' He') in Hx. rewrite Hmaxb in Hmaxne. contradiction. }
-    destruct (inv_fresh_node mb L bi ei (f p) rest Hinv0b Hmaxne Hbib Hnthb eq_refl HPb' Hrl)
+    destruct (inv_fresh_node mb L bi ei (f p) rest Hinv0b Hmaxne Hbib Hnthb eq_refl HPb')
       as [Hi1 [HP1 [Hl1 [Hmx1 [Hik1 Hr1]]]]].
     rewrite Hm1. exists (L ++ [h_fresh mb]).
     split; [exact Hi1|]. split; [congruence|]. split; [congruence|]. split; [congruence|]. split.
@@ -774,9 +811,9 @@ Proof.
       assert (lru_on K mb = true) by (unfold lru_on; change (h_max mb) with (h_max m); rewrite E; reflexivity). congruence. }
     rewrite Hm1. exists L. split; [|split; [exact Hmaxb | split; [exact Hikpb | split; [exact Hlogb | split]]]].
     + apply inv_split. split; [exact Hinv0b|].
-      intros e' He'. rewrite Hmaxb. eapply Permutation_in in He'; [|exact HPb']. destruct He' as [He'|He'].
-      * subst e'. simpl. split; intro; [exact Hmaxn | reflexivity].
-      * apply (inv_on m L Hinv). eapply Permutation_in; [exact Hrest | exact He'].
+      intros _ e' He'. eapply Permutation_in in He'; [|exact HPb']. destruct He' as [He'|He'].
+      * subst e'. reflexivity.
+      * apply (inv_on m L Hinv Hmaxn). eapply Permutation_in; [exact Hrest | exact He'].
     + eapply Permutation_trans; [apply al_of_cons_perm; exact HPb'|]. simpl. constructor. exact Halb.
     + intros ks Hrr Hnd.
       assert (Hlo : lru_on K m = false).
@@ -833,10 +870,10 @@ Proof.
     - apply (al_of_cons_perm (h_bkts mb) (f e) rest HPb'). }
   destruct (lru_on K mb) eqn:Hon.
   - assert (Hmaxne : h_max mb <> None) by (apply lru_on_max; exact Hon).
-    destruct (inv_touch mb L bi ei (f e) Hinvb Hmaxne Hnthb Hbib) as [L' [Hi1 [Hf1 Hr1]]].
-    destruct (frame_core _ _ Hf1) as [Fc [Fm [Fb [Ffr [Fmx [Fik [Ffa Flg]]]]]]].
+    destruct (inv_touch mb L bi ei (f e) Hinvb Hmaxne Hnthb Hbib) as [L' [Hi1 [Flg [Fmx [Fik [Fc [FP Hr1]]]]]]].
     rewrite Hm1. exists L'. split; [exact Hi1|]. split; [congruence|]. split; [congruence|]. split; [congruence|]. split.
-    + rewrite Fb. exact Hal.
+    + destruct Hal as [rest' [Ha1 Ha2]]. exists rest'. split; [exact Ha1|].
+      eapply Permutation_trans; [exact FP | exact Ha2].
     + intros ks Hrr Hnd.
       assert (Hlo : lru_on K m = true) by (apply lru_on_max; change (h_max m) with (h_max mb); exact Hmaxne).
       rewrite Hlo. apply (Hr1 ks); [|exact Hnd]. apply (recrel_ext m); [exact Hheapb | exact Hrr].
@@ -1049,8 +1086,8 @@ Proof.
   { assert (Hids : lru_ids (ents (h_bkts m)) = []).
     { unfold lru_ids. pose proof (inv_on m L Hi) as Hon.
       induction (ents (h_bkts m)) as [|e t IH]; [reflexivity|]. simpl.
-      assert (He : e_lru e = None) by (apply Hon; [left; reflexivity | exact Hoff]).
-      rewrite He. simpl. apply IH. intros e' He'. apply Hon. right. exact He'. }
+      assert (He : e_lru e = None) by (apply (Hon Hoff); left; reflexivity).
+      rewrite He. simpl. apply IH. intros _ e' He'. apply (Hon Hoff). right. exact He'. }
     pose proof (inv_ids m L Hi) as HP. rewrite Hids in HP. apply Permutation_nil in HP. exact HP. }
   subst L. inversion Hr. reflexivity.
 Qed.
@@ -1150,10 +1187,10 @@ Proof.
     destruct HR as [L [Hinv [HPal [Hrr [Hnd [Hmx Hik]]]]]].
     destruct (lru_on K m) eqn:Hon.
     + assert (Hmaxne : h_max m <> None) by (apply lru_on_max; exact Hon).
-      destruct (inv_touch m L _ ei e Hinv Hmaxne Hnth Hbi) as [L' [Hi' [Hf' Hr']]].
-      destruct (frame_core _ _ Hf') as [Fc [Fm [Fb [Ffr [Fmx [Fik [Ffa Flg]]]]]]].
+      destruct (inv_touch m L _ ei e Hinv Hmaxne Hnth Hbi) as [L' [Hi' [Flg [Fmx [Fik [Fc [FP Hr']]]]]]].
       split; [|split; [reflexivity | split; [congruence | cbn [s_al]; congruence]]].
       exists L'. cbn [s_al s_rec s_max s_ikp]. splits; try assumption; try congruence.
+      * eapply Permutation_trans; [exact FP | exact HPal].
       * unfold rec_touch. rewrite <- (lru_on_is_on m s Hmx), Hon.
         pose proof (Hr' _ Hrr Hnd) as Hx. rewrite Hke in Hx. exact Hx.
       * unfold rec_touch. rewrite <- (lru_on_is_on m s Hmx), Hon. apply (rec_touch_nodup K keq keq_spec). exact Hnd.
@@ -1316,7 +1353,7 @@ Proof.
       + intro Hx. exfalso. apply Hx. apply Hh3.
     - apply Permutation_refl.
     - intros e n [].
-    - intros e [].
+    - intros _ e [].
     - intros j []. }
   splits.
   - exists []. cbn [s_al s_rec s_max s_ikp].
@@ -1373,6 +1410,15 @@ Proof.
   apply Hoff. unfold lru_is_on in Hlo. rewrite Hmx in Hlo. destruct (h_max m); [discriminate | reflexivity].
 Qed.
 
+(* iwhmap_lru_init at any time: the entries that exist keep "no node", the recency list starts with the keys it has *)
+Lemma lruinit_sim : forall m s mx, R m s -> R (hlruinit K m mx) (s_lruinit K s mx).
+Proof.
+  intros m s mx [L [Hinv [HPal [Hrr [Hnd [Hmx Hik]]]]]].
+  exists L. unfold hlruinit, s_lruinit. cbn [s_al s_rec s_max s_ikp]. splits; try assumption; try reflexivity.
+  - destruct Hinv as [H1 H2 H3 H4 H5 H6 H7 H8]. constructor; simpl; try assumption;
+      try (intro Hx; discriminate); try (apply (dll_ext m); try reflexivity; exact H4).
+Qed.
+
 (* ------------------------------------------------------------------ observable equivalence and the step simulation *)
 Definition out_equiv (o o' : hout K) : Prop :=
   match o, o' with
@@ -1384,6 +1430,7 @@ Definition out_equiv (o o' : hout K) : Prop :=
   | OCount _ n, OCount _ n' => n = n'
   | OIter _ l, OIter _ l' => Permutation l l'
   | OLru _ l w, OLru _ l' w' => l = l' /\ w = w'
+  | OLruInit _, OLruInit _ => True
   | _, _ => False
   end.
 
@@ -1394,7 +1441,7 @@ Lemma step_sim : forall m s op, R m s ->
 Proof.
   intros m s op HR. destruct (R_clear_log m s HR) as [HR0 Hl0].
   unfold h_step, s_step. set (m0 := clear_log K m) in *.
-  destruct op as [k v|k|k|a b| | | |].
+  destruct op as [k v|k|k|a b| | | | |mx].
   - pose proof (put_sim m0 s k v HR0 Hl0) as H. destruct (s_put K keq s k v) as [s' lg].
     destruct H as [HR' [Hlg Hc]]. split; [exact HR'|]. simpl. split; assumption.
   - pose proof (get_sim m0 s k HR0 Hl0) as H. destruct (hget_val K keq hashf m0 k) as [m' v].
@@ -1410,6 +1457,7 @@ Proof.
   - split; [exact HR0|]. simpl. apply (R_count m0 s HR0).
   - split; [exact HR0|]. simpl. destruct HR0 as [L [_ [HP _]]]. exact HP.
   - split; [exact HR0|]. rewrite (lru_sim m0 s HR0). simpl. split; reflexivity.
+  - split; [apply lruinit_sim; exact HR0 | exact I].
 Qed.
 
 Lemma R_new : forall max ikp, R (hnew K max ikp) (s_new K max ikp).
@@ -1429,7 +1477,7 @@ Proof.
       * intro Hx. exfalso. apply Hx. reflexivity.
     + apply Permutation_refl.
     + intros e n [].
-    + intros e [].
+    + intros _ e [].
     + intros j [].
   - projs. unfold al_of. rewrite He. apply Permutation_refl.
 Qed.
@@ -1668,7 +1716,7 @@ Lemma s_step_vals : forall s op, NoDup (map fst (s_al K s)) ->
   Permutation (nz (op_ins op ++ vals (s_al K s))) (nz (lvals (out_log o') ++ vals (s_al K s'))) /\
   NoDup (map fst (s_al K s')).
 Proof.
-  intros s op Hnd. destruct op as [k v|k|k|a b| | | |]; unfold s_step.
+  intros s op Hnd. destruct op as [k v|k|k|a b| | | | |mx]; unfold s_step.
   - (* put *)
     unfold s_put.
     assert (Hnd1 : NoDup (map fst ((k, v) :: al_remove K keq k (s_al K s)))).
@@ -1719,6 +1767,7 @@ Proof.
   - (* clear *)
     unfold s_clear. cbn [s_al out_log op_ins]. simpl app. split; [|constructor].
     unfold lvals, vals. rewrite map_map. simpl. rewrite app_nil_r. apply Permutation_refl.
+  - simpl. split; [apply Permutation_refl | exact Hnd].
   - simpl. split; [apply Permutation_refl | exact Hnd].
   - simpl. split; [apply Permutation_refl | exact Hnd].
   - simpl. split; [apply Permutation_refl | exact Hnd].
